@@ -7,6 +7,7 @@ package main
 // finding keys, and the shrink candidates.
 
 import (
+	"encoding/json"
 	"fmt"
 	"strconv"
 	"strings"
@@ -21,7 +22,8 @@ import (
 type c01N struct {
 	K  string    `json:"k"`
 	S  string    `json:"s,omitempty"`  // operator / name / string value / message
-	I  int64     `json:"i,omitempty"`  // int value / status code
+	I  int64     `json:"-"`            // int value / status code (serialised as text, see MarshalJSON)
+	IT string    `json:"i,omitempty"`  // decimal text of I in replay files (the driver re-encodes numbers as float64)
 	F  float64   `json:"f,omitempty"`  // float value
 	B  bool      `json:"b,omitempty"`  // bool value / "$"-form of iset / switch has default
 	C  []*c01N   `json:"c,omitempty"`  // expression children
@@ -63,6 +65,33 @@ type c01Case struct {
 	Prog  c01Prog `json:"prog"`
 	P     string  `json:"p"`              // path parameter
 	Body  *c01N   `json:"body,omitempty"` // literal for request-body field b (nil: no body)
+}
+
+type c01NAlias c01N
+
+func (n c01N) MarshalJSON() ([]byte, error) {
+	a := c01NAlias(n)
+	if a.I != 0 {
+		a.IT = strconv.FormatInt(a.I, 10)
+	}
+	return json.Marshal(a)
+}
+
+func (n *c01N) UnmarshalJSON(b []byte) error {
+	var a c01NAlias
+	if err := json.Unmarshal(b, &a); err != nil {
+		return err
+	}
+	if a.IT != "" {
+		v, err := strconv.ParseInt(a.IT, 10, 64)
+		if err != nil {
+			return err
+		}
+		a.I = v
+		a.IT = ""
+	}
+	*n = c01N(a)
+	return nil
 }
 
 // ---- constructors ----------------------------------------------------------
